@@ -105,21 +105,48 @@ Theorem C19_finished_population_identical : forall c t ks evs,
 Proof. exact finished_population_identical. Qed.
 Print Assumptions C19_finished_population_identical.
 
-(* cache_xml_versions entered within the refresh interval of the recorded
-   time is skipped: nothing in the directory, the lock or the network counter
-   changes and the caller sees the cache error (-1).  Any world, any process;
-   holds of the code as it is (LFallback) and of the repaired one (XEnter). *)
+(* cache_xml_versions entered within the refresh interval of the time recorded in the SHARED
+   last_update.txt is skipped: nothing in the directory, the lock or the network counter changes
+   and the caller sees the cache error (-1).  Any world, any process; holds of the code as it is
+   (LFallback) and of the repaired one (XEnter).  (memo_stamp is the anti-pattern switch "remember
+   the time per process", refuted below; it is off in both.) *)
 Theorem C19_refresh_within_interval_skipped : forall c w p r t,
+  memo_stamp c = false ->
   nth_error (procs w) p = Some r ->
   (pc_of r = LFallback \/ pc_of r = XEnter) ->
   stamp (sh w) = StampAt t -> clock (sh w) - t < threshold c ->
   exists r', proc_at (step c w (Run p)) p = Some r' /\
-             sh (step c w (Run p)) = sh w /\ cache_err r' = true /\
+             sh (step c w (Run p)) = sh w /\ cache_err r' = true /\ nreq r' = nreq r /\
              pc_of r' = match pc_of r, kind_of r with
                         | LFallback, KLoad _ => LRecheck
                         | _, _ => Done OSkipped end.
 Proof. exact refresh_within_interval_skipped. Qed.
 Print Assumptions C19_refresh_within_interval_skipped.
+
+(* ... over multi-process schedules, with the request counters as observables: the step changes
+   no shared state (global counter included) and, whatever ANY process does afterwards in ANY
+   schedule, that call has ended as skipped with its own request counter unchanged *)
+Theorem C19_refresh_skipped_all_schedules : forall c w p r t evs,
+  memo_stamp c = false ->
+  nth_error (procs w) p = Some r ->
+  (pc_of r = XEnter \/ (pc_of r = LFallback /\ kind_of r = KRefresh)) ->
+  stamp (sh w) = StampAt t -> clock (sh w) - t < threshold c ->
+  netreqs (sh (step c w (Run p))) = netreqs (sh w) /\
+  exists r', nth_error (procs (run c w (Run p :: evs))) p = Some r' /\
+             pc_of r' = Done OSkipped /\ cache_err r' = true /\ nreq r' = nreq r.
+Proof. exact refresh_skipped_all_schedules. Qed.
+Print Assumptions C19_refresh_skipped_all_schedules.
+
+(* history theorem: the decision of CacheLock.__enter__ (threshold test) and the shared state it
+   leaves are functions of the shared directory state alone; the past of the deciding process
+   (earlier reads, earlier refreshes, failed lock attempts, ...) does not enter *)
+Theorem C19_enter_decision_history_free : forall c p s r1 r2,
+  memo_stamp c = false -> pc_of r1 = pc_of r2 -> kind_of r1 = kind_of r2 ->
+  (pc_of r1 = XEnter \/ pc_of r1 = FEnter \/ pc_of r1 = PEnter \/ pc_of r1 = LFallback) ->
+  fst (pstep c p s r1) = fst (pstep c p s r2) /\
+  pc_of (snd (pstep c p s r1)) = pc_of (snd (pstep c p s r2)).
+Proof. exact enter_decision_history_free. Qed.
+Print Assumptions C19_enter_decision_history_free.
 
 (* ... and it is not skipped outside the interval (one network request) *)
 Theorem C19_refresh_outside_interval_proceeds : forall c w p r,
@@ -133,20 +160,23 @@ Print Assumptions C19_refresh_outside_interval_proceeds.
    os.replace): any number of concurrent movers, any schedule, any kills --
    the destination name never holds anything but a complete file *)
 Theorem C19_safe_move_atomic : forall c t ks evs f x,
-  forallb is_download_kind ks = true ->
+  cleanup_outside_lock c = false -> forallb is_download_kind ks = true ->
   ver (run c (init t ks) evs) f = Some x -> x = good (nchunks c).
 Proof. exact safe_move_atomic. Qed.
 Print Assumptions C19_safe_move_atomic.
 
 (* ---- the repaired protocol: the full clauses, all schedules ---------------- *)
 
+(* (cleanup_outside_lock c = false: no process removes temporary files that are not its own --
+   the assumption under which the protocol is correct; the anti-pattern that breaks it is refuted
+   at the end of this file) *)
 Theorem C19_fixed_no_torn_visible : forall c ks,
-  forallb is_fixed_kind ks = true -> no_torn_visible_stmt c ks.
+  cleanup_outside_lock c = false -> forallb is_fixed_kind ks = true -> no_torn_visible_stmt c ks.
 Proof. exact fixed_no_torn_stmt. Qed.
 Print Assumptions C19_fixed_no_torn_visible.
 
 Theorem C19_fixed_load_succeeds : forall c ks,
-  forallb is_fixed_kind ks = true -> load_succeeds_stmt c ks.
+  cleanup_outside_lock c = false -> forallb is_fixed_kind ks = true -> load_succeeds_stmt c ks.
 Proof. exact fixed_load_stmt. Qed.
 Print Assumptions C19_fixed_load_succeeds.
 
@@ -155,14 +185,15 @@ Print Assumptions C19_fixed_load_succeeds.
    holds for every number of contenders, every order of arrivals, waiters blocked inside acquire
    when the holder leaves, kills at any point -- PROVIDED release does not remove the lock file. *)
 Theorem C19_fixed_lock_exclusive : forall c ks,
-  unlink_on_release c = false -> forallb is_fixed_kind ks = true -> lock_exclusive_stmt c ks.
+  unlink_on_release c = false -> cleanup_outside_lock c = false ->
+  forallb is_fixed_kind ks = true -> lock_exclusive_stmt c ks.
 Proof. exact fixed_lock_stmt. Qed.
 Print Assumptions C19_fixed_lock_exclusive.
 
 (* a populator that got through leaves all bundled files complete, whatever
    the other processes do or however they die *)
 Theorem C19_fixed_finished_population : forall c t ks evs p r f,
-  forallb is_fixed_kind ks = true ->
+  cleanup_outside_lock c = false -> forallb is_fixed_kind ks = true ->
   nth_error (procs (run c (init t ks) evs)) p = Some r -> populated r = true ->
   f < nfiles c -> ver (run c (init t ks) evs) f = Some (good (nchunks c)).
 Proof. exact fixed_finished_population. Qed.
@@ -197,6 +228,7 @@ Print Assumptions C19_fixed_free_lock_acquired.
    however they are scheduled or killed (a dead lock holder loses the lock; a
    live one makes the loader give up after max_tries and read the installed file) *)
 Theorem C19_fixed_load_terminates : forall c t ks evs p v,
+  cleanup_outside_lock c = false ->
   forallb is_fixed_kind ks = true -> nth_error ks p = Some (KLoadFixed v) -> v < nfiles c ->
   never_killed p evs -> load_bound c <= count_run p evs ->
   outcome_of (run c (init t ks) evs) p = Some OLoaded.
@@ -230,6 +262,46 @@ Theorem C19_unlink_contrast :
                 lockfile (sh w) = Some 0 /\ lget (locks (sh w)) 0 = Some 1.
 Proof. exact unlink_contrast. Qed.
 Print Assumptions C19_unlink_contrast.
+
+(* ANTI-PATTERN, refuted: cache_local_versions removes "leftover" *.tmp files BEFORE (= outside)
+   the lock.  Two populators, nobody killed: P1's clean-up deletes the temporary copy P0 (the lock
+   holder) is about to rename; P0's load fails with FileNotFoundError.  Without the clean-up step
+   the same schedule lets P0 finish (contrast). *)
+Theorem C19_load_succeeds_cleanup_refuted :
+  exists c ks, forallb is_fixed_kind ks = true /\ cleanup_outside_lock c = true /\
+               ~ load_succeeds_stmt c ks.
+Proof. exact load_succeeds_cleanup_refuted. Qed.
+Print Assumptions C19_load_succeeds_cleanup_refuted.
+
+Theorem C19_cleanup_witness :
+  let w := run c2c (init t0 [KLoadFixed 1; KLoadFixed 1]) ev_cleanup in
+  no_crash ev_cleanup /\ outcome_of w 0 = Some (OFail FFileNotFound) /\ locks (sh w) = [].
+Proof. exact cleanup_witness. Qed.
+Print Assumptions C19_cleanup_witness.
+
+Theorem C19_cleanup_contrast :
+  let w := run c2 (init t0 [KLoadFixed 1; KLoadFixed 1]) (ev_cleanup ++ runs 0 12) in
+  outcome_of w 0 = Some OLoaded.
+Proof. exact cleanup_contrast. Qed.
+Print Assumptions C19_cleanup_contrast.
+
+(* ANTI-PATTERN, refuted: the last-update time memoised per OS process.  Calls 0 and 2 belong to
+   OS process 7: it refreshes at 50, another process refreshes at 70, process 7 tries again at 71:
+   not skipped, a third network request, although the shared stamp is one time unit old.  With the
+   shared stamp read every time (code as it is / repaired) the third call is skipped (contrast). *)
+Theorem C19_memo_witness :
+  let w := run c2m (init t0 ks_memo) ev_memo in
+  stamp (sh w) = StampAt 70 /\ clock (sh w) = 71 /\ netreqs (sh w) = 3 /\
+  exists r, nth_error (procs w) 2 = Some r /\ nreq r = 1 /\ cache_err r = false.
+Proof. exact memo_witness. Qed.
+Print Assumptions C19_memo_witness.
+
+Theorem C19_memo_contrast :
+  let w := run c2 (init t0 ks_memo) ev_memo in
+  stamp (sh w) = StampAt 70 /\ netreqs (sh w) = 2 /\ outcome_of w 2 = Some OSkipped /\
+  exists r, nth_error (procs w) 2 = Some r /\ nreq r = 0 /\ cache_err r = true.
+Proof. exact memo_contrast. Qed.
+Print Assumptions C19_memo_contrast.
 
 (* ---- non-vacuity ----------------------------------------------------------- *)
 
